@@ -130,8 +130,9 @@ def big_mixtures(ctx, libs_, batch):
             continue
         bigs = [['C' * rng.choice([140, 262])], ['CCCCCCCCCC'] * 14 + ['CC(C)=O'] * 3]
         if ctx.thorough():
-            bigs = [['C' * 140], ['C' * 262], ['C' * 301], ['CCCCCCCCCC'] * 14 + ['CC(C)=O'] * 3, ['CCO'] * 50, ['C' * 100, 'OC' + 'C' * 60]]
-        smalls = PERCEPTION_SENSITIVE[:2] + rng.sample(PERCEPTION_SENSITIVE[2:], ctx.n(5, len(PERCEPTION_SENSITIVE) - 2))
+            bigs = [['C' * 140], ['C' * 262], ['CCCCCCCCCC'] * 14 + ['CC(C)=O'] * 3, ['CCO'] * 50,
+                    rng.choice([['C' * 301], ['C' * 100, 'OC' + 'C' * 60]])]
+        smalls = PERCEPTION_SENSITIVE[:2] + rng.sample(PERCEPTION_SENSITIVE[2:], ctx.n(5, 10))
         memo = {}
 
         def res(x):
